@@ -38,6 +38,9 @@ def leaf_inputs(ctx, leaf, n, dia):
             ctx.assume(fp[-1].z != 48)
         neg = ctx.decide(ctx.fresh_bool("fneg"))
         return {"$symfloat": SymStr((["-"] if neg else []) + ip + ["."] + fp)}
+    if leaf.startswith("shape:"):
+        # a string leaf of a fixed shape: d = any ASCII digit, other characters literal
+        return SymStr([ctx.fresh_char("d%d" % i, ((48, 57),)) if ch == "d" else ch for i, ch in enumerate(leaf[6:])])
     if leaf.startswith("t:"):
         # temporal leaf "t:<kind>:<zone>:<precision>" with all fields symbolic (see c14.Encode)
         from . import c14
@@ -101,6 +104,8 @@ SHAPES = {
     "wrapquote": lambda c, x: c.M([("k", [LONG_APOS, x, LONG_DQ, LONG, LONG_APOS]), ("j", c.fset([LONG_DQ, LONG_APOS, "x y"]))]),
     "wrapstr": lambda c, x: c.M([("g", c.G([("key", x), ("z", LONG + " " + LONG + " " + LONG + " " + LONG)])),
                                  ("o", c.O([("c", 3)]))]),
+    "wrapunits": lambda c, x: c.M([("k", [c.Q(x, "kg m / s"), c.Q(2, "m / s / s"), c.Q(3, "kg m / s"), c.Q(4, "m / s / s"),
+                                          c.Q(5, "kg m / s"), c.Q(6, "m / s / s"), c.Q(7, "kg m / s")])]),
     "quant": lambda c, x: c.M([("a", c.Q(x, "m")), ("b", [c.Q(x, "km/s**2")])]),
 }
 
@@ -125,7 +130,7 @@ def is_pds_group(g):
             return False
         if hasattr(v, "_fields") and isinstance(k, str) and k.startswith("^") and isinstance(getattr(v, "value", None), int):
             return False
-        keys.append(k)
+        keys.append(k.upper() if isinstance(k, str) else k)      # PDS3 keywords are written in upper case
     return len(keys) == len(set(keys))
 
 
